@@ -760,7 +760,8 @@ _FUZZ_FILES = [['t.case', 'inc.xly', 'sub/inc2.xly', 'other/inc3.xly'],
 
 def decode_doc(data: bytes):
     """bytes -> API case.  Byte 0: bit 0 = no final newline in the root file, bit 1 = root file in a sub-directory,
-    bit 2 = root given by absolute path; every further byte selects an item of _FUZZ_ITEMS for the current file or
+    bit 2 = root given by absolute path, bit 3 = files without contents are missing instead of empty; every
+    further byte selects an item of _FUZZ_ITEMS for the current file or
     moves on to the next one of the four files (structured decoding: coverage feedback works on the structure)."""
     if not data:
         return {'files': {ROOT: ''}}
@@ -784,7 +785,8 @@ def decode_doc(data: bytes):
         text = '\n'.join(lines)
         if lines and not (n == 0 and flags & 1):
             text += '\n'
-        files[name] = text
+        if lines or n == 0 or not flags & 8:
+            files[name] = text
     case = {'files': files}
     if names[0] != ROOT:
         case['root'] = names[0]
